@@ -386,6 +386,8 @@ def run(rep, repo, tier):
     # ---- R5 ----
     check_no_output_before_acceptance(rep, repo)
     check_no_carried_state(rep, repo)
+    from ..defined import check_defined
+    check_defined(rep, repo, 'C15.R3', [repo.method('Instance_options_parser', 'parse'), repo.method('Generator', '__init__', required=False)], 'generator option path')
     from .c17 import division_safety
     division_safety(rep, repo, 'C15.R6')
 
